@@ -184,7 +184,8 @@ PROPS = {
         # an answer computed from the chain as it was before a re-basing that completes while the lookup is in flight must not
         # reach the live cache (else the old chain is consulted from then on): cache-soundness contracts of the three cached
         # searches (Python) and the stale-store obligations St of their C twins
-        cfunctions=['_lookup', '_lookupAll', '_subscriptions'],
+        cfunctions=['_lookup', '_lookupAll', '_subscriptions', '_generations_tuple', '_verify', 'verify_changed'],
+        creturns={'_verify': 'int'},
         level_text_extra=' The C twin of the verifying flavour is verified from the clang AST (contracts/C06_c.py): _generations_tuple (loop invariant: the new tuple '
                          'holds the generation counters of the first i registries), _verify (a current snapshot means nothing happens, a stale or missing one '
                          'empties the caches and is re-taken, failure is reported), verify_changed (snapshot = tuple(registry.ro)[1:], generations recorded '
@@ -371,8 +372,9 @@ PROPS = {
         title='Lookups stay memory-safe and atomic when other code mutates the registry',
         contracts=['C04_extendors'], falsifier='C11', modes=['py', 'c'], level='other',
         only={'C04_extendors': ['adapter.py:AdapterLookupBase.add_extendor', 'adapter.py:AdapterLookupBase.remove_extendor']},
-        cfunctions=['_subcache', '_getcache', '_lookup', '_lookup1', '_adapter_hook', '_lookupAll', '_subscriptions', 'IB__adapt__', 'SB_extends', 'SB_providedBy', 'SB_implementedBy'],
-        creturns={'_subcache': 'borrowed', '_getcache': 'borrowed'},
+        cfunctions=['_subcache', '_getcache', '_lookup', '_lookup1', '_adapter_hook', '_lookupAll', '_subscriptions', 'IB__adapt__', 'SB_extends', 'SB_providedBy', 'SB_implementedBy',
+                    '_generations_tuple', '_verify', 'verify_changed'],
+        creturns={'_subcache': 'borrowed', '_getcache': 'borrowed', '_verify': 'int'},
         level_text='Python side: add_extendor/remove_extendor are verified never to mutate a list that existed before the call (the walk of a '
                    'lookup in progress iterates those lists); every k-th container access of an uncached walk is interrupted by every '
                    'single mutation kind, bounded. The C lookup functions (_subcache, _getcache, _lookup, _lookup1, _adapter_hook, _lookupAll, _subscriptions) and '
@@ -392,8 +394,9 @@ PROPS = {
     'C10': dict(
         title='The C accelerator is observationally equivalent to the Python reference',
         contracts=[], cfun=['C12_c', 'C14_c', 'C05_c', 'C06_c', 'C02_c', 'C01_c'], falsifier='C10', modes=['py', 'c'], level='other', differential=True,
-        cfunctions=['_subcache', '_getcache', '_lookup', '_lookup1', '_adapter_hook', '_lookupAll', '_subscriptions', 'IB__adapt__', 'SB_extends', 'SB_providedBy', 'SB_implementedBy'],
-        creturns={'_subcache': 'borrowed', '_getcache': 'borrowed'},
+        cfunctions=['_subcache', '_getcache', '_lookup', '_lookup1', '_adapter_hook', '_lookupAll', '_subscriptions', 'IB__adapt__', 'SB_extends', 'SB_providedBy', 'SB_implementedBy',
+                    '_generations_tuple', '_verify', 'verify_changed'],
+        creturns={'_subcache': 'borrowed', '_getcache': 'borrowed', '_verify': 'int'},
         level_text='Bounded differential check: six generated API programs (about 18k steps: registry chains 3-4 deep of both flavours with a mutation at every level and warm leaf caches, specification queries, comparison and hashing, '
                    'declaration queries, adaptation calls, registry lookups incl. cached answers) over a pool of 33 odd argument values '
                    'are executed under both implementations and the traces (value shapes and exception types) compared; in addition '
